@@ -648,6 +648,10 @@ func (pp c08) Run(c *core.Ctx, idx int) {
 			if kind == "entry" {
 				bads = append(bads, good+",surplus")
 			}
+			if i := strings.LastIndex(good, "/"); i > 0 {
+				// a slash written %2F is part of a name, not a step: the path names no node at all
+				bads = append(bads, good[:i]+"%2F"+good[i+1:])
+			}
 			for _, bad := range bads {
 				c.Eval()
 				var sel *node.Selection
@@ -655,10 +659,14 @@ func (pp c08) Run(c *core.Ctx, idx int) {
 				if !c.Guard("Find malformed "+bad, func() { sel, err = b.Root().Find(bad) }) {
 					_ = err
 					surplus := strings.HasSuffix(bad, ",surplus")
-					if sel != nil && (surplus || sel.Path.Meta != schemaAt(s, p).Meta || pathChain(s, sel.Path, p) != "") {
+					encoded := strings.Contains(bad, "%2F") && !strings.Contains(good, "%2F")
+					if sel != nil && (surplus || encoded || sel.Path.Meta != schemaAt(s, p).Meta || pathChain(s, sel.Path, p) != "") {
 						cls := "empty-segment"
 						if surplus {
 							cls = "surplus-key-value"
+						}
+						if encoded {
+							cls = "encoded-slash"
 						}
 						c.Violate("malformed-path-selects/"+cls+"/"+storeName, "Find(%q) selects %s, which is not what the path spells (an error, no selection, or the node %q itself would do)\n%s", bad, sel.Path.String(), good, wit())
 					}
